@@ -246,7 +246,7 @@ func runC13(r *mc.Run) {
 		depth = 7
 		r.SetBudget(10 * 60 * 1e9)
 	} else {
-		r.SetBudget(240 * 1e9)
+		r.SetBudget(300 * 1e9)
 	}
 	r.Bounds["depth_blocks"] = depth
 	r.Rule = "DFS over block histories of the real locking keeper (BeginBlocker, execution-block requests as one atomic tx, EndBlocker) on CacheContext branches; menu = single request ops + interacting pairs + absent votes + evidence + time deltas; de-duplicated on a canonical re-based store dump; oracle = CometBFT ValidatorSet.UpdateWithChangeSet + top-K invariants"
